@@ -1,1 +1,616 @@
-(** Proofs/ConfigProofs.v — placeholder, to be written. *)
+(** Proofs/ConfigProofs.v — lemmas about Model/Config.v for property C20.
+    Layout: decidable equality of values (needed to reason about dict keys of any
+    type), dict / attribute-table algebra, one file ([handle_payload]) seen through a
+    "look", the files in sequence ([init]) for an arbitrary look, then the rejection,
+    global-override, skip and acceptance lemmas. *)
+From PV Require Import Config.
+From Coq Require Import Lia.
+Open Scope string_scope.
+
+Lemma cmpop_eqb_eq a b : cmpop_eqb a b = true -> a = b.
+Proof. destruct a, b; simpl; congruence. Qed.
+
+Ltac eqb_step :=
+  repeat match goal with
+       | H : _ && _ = true |- _ => apply andb_true_iff in H; destruct H
+       end;
+  repeat match goal with
+       | H : Bool.eqb _ _ = true |- _ => apply Bool.eqb_prop in H; subst
+       | H : Z.eqb _ _ = true |- _ => apply Z.eqb_eq in H; subst
+       | H : Pos.eqb _ _ = true |- _ => apply Pos.eqb_eq in H; subst
+       | H : String.eqb _ _ = true |- _ => apply String.eqb_eq in H; subst
+       | H : cmpop_eqb _ _ = true |- _ => apply cmpop_eqb_eq in H; subst
+       end.
+
+Fixpoint pyexpr_eqb_eq (a b : pyexpr) {struct a} : pyexpr_eqb a b = true -> a = b.
+Proof.
+  destruct a; destruct b; simpl; intros H; try discriminate; try reflexivity; eqb_step.
+  all: try reflexivity.
+  all: try (repeat match goal with
+       | H : pyexpr_eqb ?x _ = true |- _ => apply (pyexpr_eqb_eq x) in H; subst
+       end; reflexivity).
+  - f_equal. revert l0 H. induction l as [|x xs IH]; intros [|y ys] H; try discriminate; auto.
+    apply andb_true_iff in H as [H1 H2]. f_equal; [apply pyexpr_eqb_eq; exact H1|apply IH; exact H2].
+  - f_equal. revert l0 H. induction l as [|x xs IH]; intros [|y ys] H; try discriminate; auto.
+    apply andb_true_iff in H as [H1 H2]. f_equal; [apply pyexpr_eqb_eq; exact H1|apply IH; exact H2].
+Qed.
+
+Fixpoint pyexpr_eqb_refl (a : pyexpr) : pyexpr_eqb a a = true.
+Proof.
+  destruct a; simpl; rewrite ?Z.eqb_refl, ?String.eqb_refl, ?Bool.eqb_reflx, ?pyexpr_eqb_refl; try reflexivity.
+  - induction l as [|x xs IH]; [reflexivity|]. rewrite pyexpr_eqb_refl. exact IH.
+  - induction l as [|x xs IH]; [reflexivity|]. rewrite pyexpr_eqb_refl. exact IH.
+  - destruct op; reflexivity.
+Qed.
+
+Lemma Q_eqb_eq a b : Q_eqb a b = true -> a = b.
+Proof.
+  destruct a, b; unfold Q_eqb; simpl; intros H. eqb_step. reflexivity.
+Qed.
+
+Lemma Q_eqb_refl a : Q_eqb a a = true.
+Proof. unfold Q_eqb. now rewrite Z.eqb_refl, Pos.eqb_refl. Qed.
+
+Fixpoint val_eqb_eq (a b : val) {struct a} : val_eqb a b = true -> a = b.
+Proof.
+  destruct a; destruct b; simpl; intros H; try discriminate; try reflexivity; eqb_step.
+  all: try reflexivity.
+  - apply Q_eqb_eq in H; subst; reflexivity.
+  - f_equal. revert l0 H. induction l as [|x xs IH]; intros [|y ys] H; try discriminate; auto.
+    apply andb_true_iff in H as [H1 H2]. f_equal; [apply val_eqb_eq; exact H1|apply IH; exact H2].
+  - f_equal. revert l0 H. induction l as [|x xs IH]; intros [|y ys] H; try discriminate; auto.
+    apply andb_true_iff in H as [H1 H2]. f_equal; [apply val_eqb_eq; exact H1|apply IH; exact H2].
+  - f_equal. revert l0 H. induction l as [|x xs IH]; intros [|y ys] H; try discriminate; auto.
+    apply andb_true_iff in H as [H1 H2]. f_equal; [apply val_eqb_eq; exact H1|apply IH; exact H2].
+  - f_equal. revert l0 H. induction l as [|[k x] xs IH]; intros [|[k' y] ys] H; try discriminate; auto.
+    apply andb_true_iff in H as [H1 H2]. apply andb_true_iff in H1 as [H0 H1].
+    f_equal; [f_equal; apply val_eqb_eq; assumption|apply IH; exact H2].
+  - apply pyexpr_eqb_eq in H0; subst; reflexivity.
+  - apply val_eqb_eq in H; subst; reflexivity.
+Qed.
+
+Fixpoint val_eqb_refl (a : val) : val_eqb a a = true.
+Proof.
+  destruct a; simpl;
+    rewrite ?Z.eqb_refl, ?String.eqb_refl, ?Bool.eqb_reflx, ?Q_eqb_refl, ?pyexpr_eqb_refl; try reflexivity.
+  - induction l as [|x xs IH]; [reflexivity|]. rewrite val_eqb_refl. exact IH.
+  - induction l as [|x xs IH]; [reflexivity|]. rewrite val_eqb_refl. exact IH.
+  - induction l as [|x xs IH]; [reflexivity|]. rewrite val_eqb_refl. exact IH.
+  - induction l as [|[k x] xs IH]; [reflexivity|]. rewrite !val_eqb_refl. exact IH.
+  - apply val_eqb_refl.
+Qed.
+
+Lemma val_eqb_true_iff a b : val_eqb a b = true <-> a = b.
+Proof. split; [apply val_eqb_eq|intros ->; apply val_eqb_refl]. Qed.
+
+Lemma val_eqb_sym a b : val_eqb a b = val_eqb b a.
+Proof.
+  destruct (val_eqb a b) eqn:E.
+  - apply val_eqb_eq in E; subst. symmetry; apply val_eqb_refl.
+  - destruct (val_eqb b a) eqn:E'; [|reflexivity].
+    apply val_eqb_eq in E'; subst. rewrite val_eqb_refl in E; discriminate.
+Qed.
+
+(** ** dictionaries *)
+Lemma dict_get_set k k' v d :
+  dict_get k (dict_set k' v d) = if val_eqb k k' then Some v else dict_get k d.
+Proof.
+  induction d as [|[k2 v2] r IH]; simpl.
+  - destruct (val_eqb k k'); reflexivity.
+  - destruct (val_eqb k' k2) eqn:E2; simpl.
+    + apply val_eqb_eq in E2; subst k2. destruct (val_eqb k k'); reflexivity.
+    + destruct (val_eqb k k2) eqn:E.
+      * apply val_eqb_eq in E; subst k2. rewrite val_eqb_sym, E2. reflexivity.
+      * exact IH.
+Qed.
+
+Lemma dict_get_in_keys k d : dict_get k d <> None <-> In k (dict_keys d).
+Proof.
+  induction d as [|[k2 v2] r IH]; simpl.
+  - split; [congruence|tauto].
+  - destruct (val_eqb k k2) eqn:E.
+    + apply val_eqb_eq in E; subst. split; [auto|congruence].
+    + rewrite IH. split; [auto|]. intros [->|H]; [rewrite val_eqb_refl in E; discriminate|exact H].
+Qed.
+
+Lemma map_update_fold_get k m : forall ks d,
+  dict_get k (fold_left (fun acc k0 => match dict_get k0 m with
+                                       | Some v => dict_set k0 v acc
+                                       | None => acc
+                                       end) ks d)
+  = if existsb (val_eqb k) ks then or_else (dict_get k m) (dict_get k d) else dict_get k d.
+Proof.
+  induction ks as [|k0 ks IH]; intros d; simpl; [reflexivity|].
+  rewrite IH. destruct (val_eqb k k0) eqn:E; simpl.
+  - apply val_eqb_eq in E; subst k0.
+    destruct (dict_get k m) as [v|] eqn:G; simpl.
+    + rewrite dict_get_set, val_eqb_refl. destruct (existsb (val_eqb k) ks); reflexivity.
+    + destruct (existsb (val_eqb k) ks); reflexivity.
+  - destruct (dict_get k0 m) as [v|] eqn:G; [|reflexivity].
+    rewrite dict_get_set, E. reflexivity.
+Qed.
+
+Lemma dict_get_map_update k d m :
+  dict_get k (map_update d m) = or_else (dict_get k m) (dict_get k d).
+Proof.
+  unfold map_update. rewrite map_update_fold_get.
+  destruct (existsb (val_eqb k) (dict_keys m)) eqn:E; [reflexivity|].
+  destruct (dict_get k m) as [v|] eqn:G; [|reflexivity].
+  exfalso. assert (H : In k (dict_keys m)) by (apply dict_get_in_keys; congruence).
+  assert (X : existsb (val_eqb k) (dict_keys m) = true)
+    by (apply existsb_exists; exists k; split; [exact H|apply val_eqb_refl]).
+  congruence.
+Qed.
+
+(** ** the scalar table *)
+Lemma sm_get_set k k' v m :
+  sm_get k (sm_set k' v m) = if String.eqb k k' then Some v else sm_get k m.
+Proof.
+  induction m as [|[k2 v2] r IH]; simpl.
+  - destruct (String.eqb k k'); reflexivity.
+  - destruct (String.eqb k' k2) eqn:E2; simpl.
+    + apply String.eqb_eq in E2; subst k2. destruct (String.eqb k k'); reflexivity.
+    + destruct (String.eqb k k2) eqn:E.
+      * apply String.eqb_eq in E; subst k2. rewrite String.eqb_sym, E2. reflexivity.
+      * exact IH.
+Qed.
+
+Lemma str_in_In s l : str_in s l = true <-> In s l.
+Proof.
+  induction l as [|x r IH]; simpl; [split; [discriminate|tauto]|].
+  rewrite orb_true_iff, IH, String.eqb_eq. split; intros [H|H]; auto.
+Qed.
+
+Lemma update_scalars_fold_get s p : forall names acc,
+  sm_get s (fold_left (fun acc name => match dict_get (VStr name) p with
+                                       | Some v => sm_set name v acc
+                                       | None => acc
+                                       end) names acc)
+  = if str_in s names then or_else (dict_get (VStr s) p) (sm_get s acc) else sm_get s acc.
+Proof.
+  induction names as [|n names IH]; intros acc; simpl; [reflexivity|].
+  rewrite IH. destruct (String.eqb s n) eqn:E; simpl.
+  - apply String.eqb_eq in E; subst n.
+    destruct (dict_get (VStr s) p) as [v|] eqn:G; simpl.
+    + rewrite sm_get_set, String.eqb_refl. destruct (str_in s names); reflexivity.
+    + destruct (str_in s names); reflexivity.
+  - destruct (dict_get (VStr n) p) as [v|] eqn:G; [|reflexivity].
+    rewrite sm_get_set, E. reflexivity.
+Qed.
+
+Lemma sm_get_update_scalars s m p :
+  In s scalar_props ->
+  sm_get s (update_scalars m p) = or_else (dict_get (VStr s) p) (sm_get s m).
+Proof.
+  intros H. unfold update_scalars. rewrite update_scalars_fold_get.
+  apply str_in_In in H. rewrite H. reflexivity.
+Qed.
+
+(** ** plumbing *)
+Lemma cbind_ok {A B} (r : cres A) (f : A -> cres B) b :
+  cbind r f = COk b -> exists a, r = COk a /\ f a = COk b.
+Proof. destruct r; simpl; intros H; try discriminate. eauto. Qed.
+
+Lemma or_else_assoc a b c : or_else (or_else a b) c = or_else a (or_else b c).
+Proof. destruct a; reflexivity. Qed.
+
+Lemma or_else_none a : or_else a None = a.
+Proof. destruct a; reflexivity. Qed.
+
+Lemma first_setting_app says a b :
+  first_setting says (a ++ b) = or_else (first_setting says a) (first_setting says b).
+Proof.
+  induction a as [|x r IH]; simpl; [reflexivity|].
+  destruct (says x); [reflexivity|exact IH].
+Qed.
+
+Lemma first_setting_cons says x r :
+  first_setting says (x :: r) = or_else (says x) (first_setting says r).
+Proof. reflexivity. Qed.
+
+(** ** [update], inverted *)
+Lemma update_ok c d c1 :
+  update c d = COk c1 ->
+  unknown_keys d = [] /\
+  exists sh vs,
+    update_dict_prop (c_shortcuts c) (dict_get (VStr "shortcuts") d) = COk sh /\
+    update_dict_prop (c_vars c) (dict_get (VStr "vars") d) = COk vs /\
+    c1 = mkConfig (update_scalars (c_scalars c) d) sh vs (c_loaded c) (c_pyproject c)
+                  (c_skip_init c) (c_paths c).
+Proof.
+  unfold update. destruct (unknown_keys d) eqn:U; [|discriminate].
+  destruct (update_dict_prop (c_shortcuts c) _) as [sh|e1|] eqn:S;
+  destruct (update_dict_prop (c_vars c) _) as [vs|e2|] eqn:V; intros H; try discriminate.
+  inversion H; subst. split; [reflexivity|]. exists sh, vs. auto.
+Qed.
+
+Lemma handle_payload_ok c path v c' :
+  handle_payload c path v = COk c' ->
+  (py_truth v = false /\ c' = c) \/
+  (exists d c1, v = VDict d /\ d <> [] /\ update c d = COk c1 /\ c' = with_loaded c1 path).
+Proof.
+  unfold handle_payload. destruct (py_truth v) eqn:T.
+  - destruct v; try discriminate. intros H. apply cbind_ok in H as (c1 & U & E).
+    inversion E; subst. right. exists l, c1. repeat split; auto.
+    intros ->. discriminate.
+  - intros H; inversion H; subst. left; auto.
+Qed.
+
+Lemma falsy_says_nothing k v : py_truth v = false -> file_sets k v = None.
+Proof. destruct v; simpl; try reflexivity. destruct l; [reflexivity|discriminate]. Qed.
+
+(** one file, one scalar *)
+Lemma handle_payload_scalar s c path v c' :
+  In s scalar_props ->
+  handle_payload c path v = COk c' ->
+  setting s c' = or_else (file_sets (VStr s) v) (setting s c).
+Proof.
+  intros Hs H. apply handle_payload_ok in H as [[T ->]|(d & c1 & -> & _ & U & ->)].
+  - rewrite falsy_says_nothing by exact T. reflexivity.
+  - apply update_ok in U as (_ & sh & vs & _ & _ & ->).
+    unfold setting; simpl. apply sm_get_update_scalars. exact Hs.
+Qed.
+
+Lemma update_dict_prop_get cur o r k :
+  update_dict_prop cur o = COk r ->
+  dict_get k r = or_else (match o with Some (VDict m) => dict_get k m | _ => None end)
+                         (dict_get k cur).
+Proof.
+  destruct o as [v|]; simpl; [|intros H; inversion H; reflexivity].
+  destruct v; simpl; intros H; try discriminate; try (inversion H; subst; reflexivity).
+  - destruct s; [inversion H; reflexivity|discriminate].
+  - destruct l; [inversion H; reflexivity|discriminate].
+  - destruct l; [inversion H; reflexivity|discriminate].
+  - inversion H; subst. apply dict_get_map_update.
+Qed.
+
+(** one file, one key of vars / of shortcuts *)
+Lemma handle_payload_vars k c path v c' :
+  handle_payload c path v = COk c' ->
+  dict_get k (c_vars c') = or_else (file_sets_in "vars" k v) (dict_get k (c_vars c)).
+Proof.
+  intros H. apply handle_payload_ok in H as [[T ->]|(d & c1 & -> & _ & U & ->)].
+  - unfold file_sets_in. rewrite falsy_says_nothing by exact T. reflexivity.
+  - apply update_ok in U as (_ & sh & vs & _ & V & ->). simpl.
+    rewrite (update_dict_prop_get _ _ _ k V). unfold file_sets_in; simpl.
+    destruct (dict_get (VStr "vars") d) as [[]|]; reflexivity.
+Qed.
+
+Lemma handle_payload_shortcuts k c path v c' :
+  handle_payload c path v = COk c' ->
+  dict_get k (c_shortcuts c') = or_else (file_sets_in "shortcuts" k v) (dict_get k (c_shortcuts c)).
+Proof.
+  intros H. apply handle_payload_ok in H as [[T ->]|(d & c1 & -> & _ & U & ->)].
+  - unfold file_sets_in. rewrite falsy_says_nothing by exact T. reflexivity.
+  - apply update_ok in U as (_ & sh & vs & S & _ & ->). simpl.
+    rewrite (update_dict_prop_get _ _ _ k S). unfold file_sets_in; simpl.
+    destruct (dict_get (VStr "shortcuts") d) as [[]|]; reflexivity.
+Qed.
+
+(** ** the files in sequence *)
+Lemma load_yaml_ok fs p raise v :
+  load_yaml fs p raise = COk v -> v = payload_at fs p.
+Proof.
+  unfold load_yaml, payload_at. destruct (fs p); [destruct raise|]; intros H; inversion H; reflexivity.
+Qed.
+
+Lemma load_pyproject_ok fs c c' v :
+  load_pyproject fs c pyproject_name = COk (c', v) ->
+  v = pyproject_payload fs /\ (c' = c \/ exists t, c' = with_pyproject c t).
+Proof.
+  unfold load_pyproject, pyproject_payload.
+  destruct (fs pyproject_name) as [|[]]; intros H; try discriminate;
+    try (inversion H; subst; split; [reflexivity|left; reflexivity]).
+  destruct (is_nil l) eqn:N.
+  - inversion H; subst. destruct l; [|discriminate]. simpl. split; [reflexivity|left; reflexivity].
+  - destruct (dict_get (VStr "tool") l) as [tool|].
+    + destruct (py_truth tool) eqn:T.
+      * destruct tool; try discriminate. inversion H; subst. split; [reflexivity|right; eauto].
+      * inversion H; subst. split; [|right; eauto].
+        destruct tool; try reflexivity. destruct l0; [reflexivity|discriminate].
+    + inversion H; subst. split; [reflexivity|right; eauto].
+Qed.
+
+Section Overlay.
+  (** [look] reads one piece of the effective configuration, [says] reads the same piece
+      off one file's payload. *)
+  Variable look : config -> option val.
+  Variable says : val -> option val.
+  Hypothesis look_step : forall c path v c',
+    handle_payload c path v = COk c' -> look c' = or_else (says v) (look c).
+  Hypothesis look_paths : forall c u cs, look (with_paths c u cs) = look c.
+  Hypothesis look_pyproject : forall c t, look (with_pyproject c t) = look c.
+
+  Lemma handle_yaml_look fs c p raise c' :
+    handle_yaml fs c p raise = COk c' -> look c' = or_else (says (payload_at fs p)) (look c).
+  Proof.
+    unfold handle_yaml. intros H. apply cbind_ok in H as (v & L & H).
+    apply load_yaml_ok in L; subst v. eapply look_step; eauto.
+  Qed.
+
+  Lemma handle_yamls_look fs : forall ps c c',
+    handle_yamls fs c ps = COk c' ->
+    look c' = or_else (first_setting says (rev (map (payload_at fs) ps))) (look c).
+  Proof.
+    induction ps as [|p r IH]; simpl; intros c c' H.
+    - inversion H; reflexivity.
+    - apply cbind_ok in H as (c1 & H1 & H2).
+      rewrite (IH _ _ H2), (handle_yaml_look _ _ _ _ _ H1).
+      rewrite first_setting_app, or_else_assoc. f_equal.
+      rewrite first_setting_cons. simpl first_setting. rewrite or_else_none. reflexivity.
+  Qed.
+
+  Lemma handle_pyproject_look fs c c' :
+    handle_pyproject fs c pyproject_name = COk c' ->
+    look c' = or_else (says (pyproject_payload fs)) (look c).
+  Proof.
+    unfold handle_pyproject. intros H. apply cbind_ok in H as ([c1 v] & L & H). simpl in H.
+    apply load_pyproject_ok in L as (-> & [->|(t & ->)]).
+    - eapply look_step; eauto.
+    - rewrite (look_step _ _ _ _ H), look_pyproject. reflexivity.
+  Qed.
+
+  Lemma init_look e fs c c' :
+    skip_requested e = false ->
+    init e fs c = COk c' ->
+    look c' = or_else (first_setting says (map snd (precedence e fs))) (look c).
+  Proof.
+    intros S H. unfold init in H. rewrite S in H.
+    apply cbind_ok in H as (c2 & H12 & H).
+    apply cbind_ok in H as (c3 & H3 & H4).
+    apply handle_yaml_look in H4. apply handle_pyproject_look in H3.
+    unfold precedence. rewrite H4, H3. simpl map. rewrite !first_setting_cons, !or_else_assoc.
+    f_equal. f_equal.
+    destruct (global_path e) as [g|].
+    - apply cbind_ok in H12 as (c1 & H1 & E). inversion E; subst.
+      rewrite look_paths, (handle_yaml_look _ _ _ _ _ H1). simpl map.
+      rewrite first_setting_cons. simpl first_setting. rewrite or_else_none. reflexivity.
+    - apply cbind_ok in H12 as (c1 & H1 & H2).
+      rewrite (handle_yaml_look _ _ _ _ _ H2), (handle_yamls_look _ _ _ _ H1), look_paths.
+      simpl map. rewrite first_setting_cons, or_else_assoc, map_map. simpl.
+      rewrite map_rev, rev_involutive. reflexivity.
+  Qed.
+End Overlay.
+
+Lemma init_scalar e fs c c' s :
+  skip_requested e = false -> init e fs c = COk c' -> In s scalar_props ->
+  setting s c' = or_else (first_setting (file_sets (VStr s)) (map snd (precedence e fs))) (setting s c).
+Proof.
+  intros S H Hs. apply (init_look (setting s) (file_sets (VStr s))); auto.
+  intros; eapply handle_payload_scalar; eauto.
+Qed.
+
+Lemma init_vars e fs c c' k :
+  skip_requested e = false -> init e fs c = COk c' ->
+  dict_get k (c_vars c') =
+  or_else (first_setting (file_sets_in "vars" k) (map snd (precedence e fs))) (dict_get k (c_vars c)).
+Proof.
+  intros S H. apply (init_look (fun c => dict_get k (c_vars c)) (file_sets_in "vars" k)); auto.
+  intros; eapply handle_payload_vars; eauto.
+Qed.
+
+Lemma init_shortcuts e fs c c' k :
+  skip_requested e = false -> init e fs c = COk c' ->
+  dict_get k (c_shortcuts c') =
+  or_else (first_setting (file_sets_in "shortcuts" k) (map snd (precedence e fs)))
+          (dict_get k (c_shortcuts c)).
+Proof.
+  intros S H. apply (init_look (fun c => dict_get k (c_shortcuts c)) (file_sets_in "shortcuts" k)); auto.
+  intros; eapply handle_payload_shortcuts; eauto.
+Qed.
+
+(** ** every consulted file went through [handle_path] successfully *)
+Definition handled (path : string) (v : val) : Prop :=
+  exists c1 c2, handle_payload c1 path v = COk c2.
+
+Lemma handle_yaml_handled fs c p raise c' :
+  handle_yaml fs c p raise = COk c' -> handled p (payload_at fs p).
+Proof.
+  unfold handle_yaml. intros H. apply cbind_ok in H as (v & L & H).
+  apply load_yaml_ok in L; subst v. exists c, c'. exact H.
+Qed.
+
+Lemma handle_yamls_handled fs : forall ps c c',
+  handle_yamls fs c ps = COk c' -> forall p, In p ps -> handled p (payload_at fs p).
+Proof.
+  induction ps as [|p r IH]; simpl; intros c c' H q Hq; [contradiction|].
+  apply cbind_ok in H as (c1 & H1 & H2). destruct Hq as [<-|Hq].
+  - eapply handle_yaml_handled; eauto.
+  - eapply IH; eauto.
+Qed.
+
+Lemma handle_pyproject_handled fs c c' :
+  handle_pyproject fs c pyproject_name = COk c' -> handled pyproject_name (pyproject_payload fs).
+Proof.
+  unfold handle_pyproject. intros H. apply cbind_ok in H as ([c1 v] & L & H). simpl in H.
+  apply load_pyproject_ok in L as (-> & _). exists c1, c'. exact H.
+Qed.
+
+Lemma init_all_handled e fs c c' :
+  skip_requested e = false -> init e fs c = COk c' ->
+  forall path v, In (path, v) (precedence e fs) -> handled path v.
+Proof.
+  intros S H path v Hin. unfold init in H. rewrite S in H.
+  apply cbind_ok in H as (c2 & H12 & H).
+  apply cbind_ok in H as (c3 & H3 & H4).
+  unfold precedence in Hin. destruct Hin as [E|[E|Hin]].
+  - inversion E; subst. eapply handle_yaml_handled; eauto.
+  - inversion E; subst. eapply handle_pyproject_handled; eauto.
+  - destruct (global_path e) as [g|].
+    + apply cbind_ok in H12 as (c1 & H1 & _). destruct Hin as [E|[]].
+      inversion E; subst. eapply handle_yaml_handled; eauto.
+    + apply cbind_ok in H12 as (c1 & H1 & H2). destruct Hin as [E|Hin].
+      * inversion E; subst. eapply handle_yaml_handled; eauto.
+      * apply in_map_iff in Hin as (p & E & Hp). inversion E; subst.
+        eapply handle_yamls_handled; eauto. apply in_rev in Hp. exact Hp.
+Qed.
+
+(** ** unknown settings *)
+Lemma unknown_keys_spec d k : In k (unknown_keys d) <-> In k (dict_keys d) /\ is_known k = false.
+Proof.
+  unfold unknown_keys. rewrite filter_In. rewrite negb_true_iff. reflexivity.
+Qed.
+
+Lemma update_unknown c d :
+  (exists k, In k (dict_keys d) /\ is_known k = false) ->
+  update c d = CErr (EUnknownProps (unknown_keys d)) /\ unknown_keys d <> [].
+Proof.
+  intros (k & Hk). apply unknown_keys_spec in Hk. unfold update.
+  destruct (unknown_keys d); [contradiction|]. split; [reflexivity|discriminate].
+Qed.
+
+Lemma handle_payload_unknown c path d :
+  (exists k, In k (dict_keys d) /\ is_known k = false) ->
+  handle_payload c path (VDict d) = CErr (EUnknownProps (unknown_keys d))
+  /\ unknown_keys d <> []
+  /\ (forall k, In k (unknown_keys d) <-> In k (dict_keys d) /\ is_known k = false).
+Proof.
+  intros H. destruct (update_unknown c d H) as [U N]. split; [|split; [exact N|apply unknown_keys_spec]].
+  unfold handle_payload. destruct H as (k & Hk & _).
+  destruct d as [|kv r]; [contradiction|]. simpl py_truth. simpl. rewrite U. reflexivity.
+Qed.
+
+Lemma init_unknown_rejected e fs c path d k :
+  skip_requested e = false ->
+  In (path, VDict d) (precedence e fs) -> In k (dict_keys d) -> is_known k = false ->
+  forall c', init e fs c <> COk c'.
+Proof.
+  intros S Hin Hk Hu c' H.
+  destruct (init_all_handled _ _ _ _ S H _ _ Hin) as (c1 & c2 & Hh).
+  destruct (handle_payload_unknown c1 path d) as (E & _); [eauto|]. congruence.
+Qed.
+
+(** ** non-mapping payloads *)
+Lemma handle_payload_truthy_nonmapping c path v :
+  py_truth v = true -> is_mapping v = false -> handle_payload c path v = CErr (ENotMapping path).
+Proof.
+  unfold handle_payload. intros -> M. destruct v; try reflexivity. discriminate.
+Qed.
+
+Lemma init_truthy_nonmapping_rejected e fs c path v :
+  skip_requested e = false ->
+  In (path, v) (precedence e fs) -> py_truth v = true -> is_mapping v = false ->
+  forall c', init e fs c <> COk c'.
+Proof.
+  intros S Hin T M c' H.
+  destruct (init_all_handled _ _ _ _ S H _ _ Hin) as (c1 & c2 & Hh).
+  rewrite handle_payload_truthy_nonmapping in Hh by assumption. discriminate.
+Qed.
+
+Lemma handle_payload_falsy c path v : py_truth v = false -> handle_payload c path v = COk c.
+Proof. unfold handle_payload. intros ->. reflexivity. Qed.
+
+(** ** $PYPYR_CONFIG_GLOBAL *)
+Lemma init_global_must_exist e fs c g :
+  skip_requested e = false -> global_path e = Some g -> fs g = Absent ->
+  init e fs c = CErr (ENotFound g).
+Proof.
+  intros S G A. unfold init. rewrite S, G. unfold handle_yaml, load_yaml. rewrite A. reflexivity.
+Qed.
+
+Lemma init_global_replaces e fs1 fs2 c g :
+  global_path e = Some g ->
+  fs1 g = fs2 g -> fs1 pyproject_name = fs2 pyproject_name -> fs1 (local_name e) = fs2 (local_name e) ->
+  init e fs1 c = init e fs2 c.
+Proof.
+  intros G Eg Ep El. unfold init. rewrite G.
+  unfold handle_yaml, load_yaml, handle_pyproject, load_pyproject. rewrite Eg, Ep, El. reflexivity.
+Qed.
+
+Lemma precedence_global e fs g :
+  global_path e = Some g ->
+  precedence e fs = [(local_name e, payload_at fs (local_name e));
+                     (pyproject_name, pyproject_payload fs);
+                     (g, payload_at fs g)].
+Proof. intros G. unfold precedence. rewrite G. reflexivity. Qed.
+
+Lemma precedence_no_global e fs :
+  global_path e = None ->
+  precedence e fs = (local_name e, payload_at fs (local_name e)) ::
+                    (pyproject_name, pyproject_payload fs) ::
+                    (user_path e, payload_at fs (user_path e)) ::
+                    map (fun p => (p, payload_at fs p)) (common_paths e).
+Proof. intros G. unfold precedence. rewrite G. reflexivity. Qed.
+
+(** ** $PYPYR_SKIP_INIT *)
+Lemma init_skip e fs c : skip_requested e = true -> init e fs c = COk (with_skip c).
+Proof. intros S. unfold init. rewrite S. reflexivity. Qed.
+
+(** ** well-formed files are accepted: [init] returns a configuration *)
+Lemma handle_payload_wf c path v :
+  payload_wellformed v = true -> exists c', handle_payload c path v = COk c'.
+Proof.
+  destruct v; try discriminate; intros W.
+  - exists c; reflexivity.
+  - unfold handle_payload. destruct (py_truth (VDict l)); [|eauto].
+    simpl in W. apply andb_true_iff in W as [W Wv]. apply andb_true_iff in W as [Wu Ws].
+    unfold update. destruct (unknown_keys l); [|discriminate].
+    destruct (dict_get (VStr "shortcuts") l) as [[]|]; try discriminate;
+    destruct (dict_get (VStr "vars") l) as [[]|]; try discriminate; simpl; eauto.
+Qed.
+
+Lemma load_yaml_present fs p raise :
+  (raise = true -> fs p <> Absent) -> load_yaml fs p raise = COk (payload_at fs p).
+Proof.
+  unfold load_yaml, payload_at. destruct (fs p); [|reflexivity].
+  destruct raise; [|reflexivity]. intros H. exfalso. apply H; reflexivity.
+Qed.
+
+Lemma handle_yaml_wf fs c p raise :
+  (raise = true -> fs p <> Absent) -> payload_wellformed (payload_at fs p) = true ->
+  exists c', handle_yaml fs c p raise = COk c'.
+Proof.
+  intros R W. unfold handle_yaml. rewrite load_yaml_present by exact R. simpl.
+  apply handle_payload_wf; exact W.
+Qed.
+
+Lemma handle_yamls_wf fs : forall ps c,
+  (forall p, In p ps -> payload_wellformed (payload_at fs p) = true) ->
+  exists c', handle_yamls fs c ps = COk c'.
+Proof.
+  induction ps as [|p r IH]; simpl; intros c W; [eauto|].
+  destruct (handle_yaml_wf fs c p false) as (c1 & H1); [discriminate|apply W; auto|].
+  rewrite H1; simpl. apply IH. intros; apply W; auto.
+Qed.
+
+Lemma load_pyproject_wf fs c :
+  pyproject_wellformed fs = true ->
+  exists c1, load_pyproject fs c pyproject_name = COk (c1, pyproject_payload fs).
+Proof.
+  unfold pyproject_wellformed, load_pyproject, pyproject_payload.
+  destruct (fs pyproject_name) as [|[]]; try discriminate; [eauto|].
+  destruct l as [|kv r]; [simpl; eauto|].
+  cbn [is_nil]. destruct (dict_get (VStr "tool") (kv :: r)) as [[]|]; try discriminate; [|eauto].
+  intros _. destruct l as [|kv' r']; simpl; eauto.
+Qed.
+
+Lemma init_wf e fs c :
+  skip_requested e = false ->
+  (forall g, global_path e = Some g -> fs g <> Absent) ->
+  pyproject_wellformed fs = true ->
+  (forall path v, In (path, v) (precedence e fs) -> payload_wellformed v = true) ->
+  exists c', init e fs c = COk c'.
+Proof.
+  intros S G P W. unfold init. rewrite S. unfold precedence in W.
+  assert (W1 : payload_wellformed (payload_at fs (local_name e)) = true) by (eapply W; left; eauto).
+  assert (W2 : payload_wellformed (pyproject_payload fs) = true) by (eapply W; right; left; eauto).
+  assert (X : exists c2,
+    match global_path e with
+    | Some g => cbind (handle_yaml fs c g true) (fun c' => COk (with_paths c' g [g]))
+    | None => cbind (handle_yamls fs (with_paths c (user_path e) (common_paths e)) (rev (common_paths e)))
+                    (fun c1 => handle_yaml fs c1 (user_path e) false)
+    end = COk c2).
+  { destruct (global_path e) as [g|].
+    - destruct (handle_yaml_wf fs c g true) as (c1 & H1);
+        [intros _; apply G; reflexivity|eapply W; right; right; left; eauto|].
+      rewrite H1; simpl; eauto.
+    - destruct (handle_yamls_wf fs (rev (common_paths e))
+                  (with_paths c (user_path e) (common_paths e))) as (c1 & H1).
+      { intros p Hp. apply in_rev in Hp. eapply W. right; right; right.
+        apply in_map_iff. exists p; split; [reflexivity|exact Hp]. }
+      rewrite H1; simpl. apply handle_yaml_wf; [discriminate|]. eapply W; right; right; left; eauto. }
+  destruct X as (c2 & ->). simpl.
+  unfold handle_pyproject. destruct (load_pyproject_wf fs c2 P) as (c2' & ->). simpl.
+  destruct (handle_payload_wf c2' pyproject_name _ W2) as (c3 & ->). simpl.
+  apply handle_yaml_wf; [discriminate|exact W1].
+Qed.
